@@ -30,6 +30,8 @@ claimed={
         "Programs are enumerated by selectors (reported as such); the solver's quantifier is over rows and operator interpretations."),
  "C16":("The real run() of cmd/pql (harness injected into package main by overlay, bufio.Scanner interpreted from source) is executed on scripts assembled from statement templates, separators and line layouts with selector-chosen read chunking and a read failure at an arbitrary offset; a model that calls the real pql.Compile per statement with the prelude of accepted lets gives the expected standard output, error count and exit status; the real multiReadCloser and an over-long line are exercised too.",
         "Scripts and environment choices are enumerated through selectors (reported as such); main/cobra/os plumbing is outside (not encodable). Two documented don't-cares."),
+ "C14":("History: Compile/Parse/Scan are called repeatedly and interleaved on pairs of programs in one execution and results compared; the caller's parameter map is compared before/after; nil/zero/empty options compared; map iteration order is a symbolic permutation. Schedule: two Compile (and Parse/Scan) calls sharing their options run as interpreter threads, cold (first use in the process) and warm; the scheduler's choice before every visible operation (sync.Once/Mutex operations and accesses to shared locations that any explored execution writes) is an explicit decision, so all interleavings at that granularity are explored; conflicting accesses unordered by happens-before are data races; results must equal the sequential ones.",
+        "Data races are confirmed natively by the Go race detector on a -race build of the same harness. More than two goroutines and the Go runtime itself are outside."),
 }
 checks=[]
 for p in props:
